@@ -31,7 +31,7 @@ IDS = ("C18",)
 NOW = datetime(2024, 1, 1, tzinfo=timezone.utc)
 TOL = 5e-7  # percent; the code snaps values isclose() to 100 % (rel_tol 1e-9 of 100 = 1e-7), so results may differ by up to 1e-7
 
-BUDGET = {"quick": 6000, "thorough": 60000}
+BUDGET = {"quick": 4500, "thorough": 40000}
 SIZE_BOUNDS = {
     "quick": "1-6 batteries, capacities 0..1e6, limits on a grid or float, SoC anywhere in [-10,110]",
     "thorough": "1-8 batteries, same value domains",
